@@ -96,7 +96,7 @@ def uses(x):
 
 POSITIONS = [
     "arg", "arg2", "ret", "yield", "dictval", "dictkey", "list", "tuple", "set", "method", "static", "classm", "receiver",
-    "caller_local", "global_scan", "global_namesake", "prop_ret", "uses", "program_swaps_profiler", "instance_attr_namesake",
+    "caller_local", "global_scan", "global_namesake", "prop_ret", "uses", "program_swaps_profiler", "instance_attr_namesake", "uses_random",
 ]
 FAULT_SITES = ["log1", "log2", "log3", "flush"]
 
@@ -164,6 +164,14 @@ def scenario(M, T, kind: str, pos: str) -> Callable[[], Any]:
             k = M.K()
             k.__dict__["m"] = obj
             return M.K.m(k, 1)
+        if pos == "uses_random":
+            # a seeded simulation: its draws (and the generator state afterwards) are part of what the program computes
+            import random as _r
+
+            _r.seed(12345)
+            a = [M.f(obj) + _r.randrange(1000) for _ in range(3)]
+            M.f2(0, obj)
+            return (tuple(a), _r.random(), hash(_r.getstate()) % 100000)
         if pos == "program_swaps_profiler":
             # the program installs and removes its own profiler inside the traced block
             import sys as _sys
@@ -214,7 +222,7 @@ def observe(T, thunk: Callable[[], Any], raise_in_block: bool) -> Dict[str, Any]
     return rec
 
 
-def paired(M, T, files, kind: str, pos: str, faults: Tuple[str, ...], raise_in_block: bool, with_profiler: bool) -> List[Tuple[str, str, str]]:
+def paired(M, T, files, kind: str, pos: str, faults: Tuple[str, ...], raise_in_block: bool, with_profiler: bool, sample_rate: Optional[int] = None) -> List[Tuple[str, str, str]]:
     from monkeytype.tracing import trace_calls
 
     problems: List[Tuple[str, str, str]] = []
@@ -226,6 +234,16 @@ def paired(M, T, files, kind: str, pos: str, faults: Tuple[str, ...], raise_in_b
         prof_calls.append(event)
 
     logger = FaultyLogger(faults)
+    # a real log handler: contained failures are logged by MonkeyType, and formatting the record must not touch the
+    # program's objects either
+    import logging
+
+    mt_logger = logging.getLogger("monkeytype")
+    sink = logging.StreamHandler(io.StringIO())
+    sink.setFormatter(logging.Formatter("%(levelname)s %(message)s"))
+    mt_logger.addHandler(sink)
+    old_level = mt_logger.level
+    mt_logger.setLevel(logging.DEBUG)
     old = sys.getprofile()
     if with_profiler:
         sys.setprofile(recording_profiler)
@@ -234,7 +252,7 @@ def paired(M, T, files, kind: str, pos: str, faults: Tuple[str, ...], raise_in_b
     escaped = None
     try:
         try:
-            with trace_calls(logger, 0, lambda code: code.co_filename in files):
+            with trace_calls(logger, 0, lambda code: code.co_filename in files, sample_rate):
                 traced = observe(T, thunk, False)
                 if raise_in_block:
                     raise KeyError("program's own exception")
@@ -248,6 +266,8 @@ def paired(M, T, files, kind: str, pos: str, faults: Tuple[str, ...], raise_in_b
         after = sys.getprofile()
     finally:
         sys.setprofile(old)
+        mt_logger.removeHandler(sink)
+        mt_logger.setLevel(old_level)
     where = f"{kind}@{pos} faults={list(faults)} exit={'exception' if raise_in_block else 'return'} profiler={'recording' if with_profiler else 'none'}"
     tag = f"{kind}@{pos}"
     if escaped is not None:
@@ -270,6 +290,8 @@ def paired(M, T, files, kind: str, pos: str, faults: Tuple[str, ...], raise_in_b
         problems.append(("profiler-not-restored", "profiler", f"{where}: sys.getprofile() is {after!r} after the block, was {before!r}"))
     if logger.flushes != 1:
         problems.append(("flush-count", "flush", f"{where}: flush called {logger.flushes} times"))
+    if sample_rate:
+        problems = [(k, s_ + ":sampling", m + f" (sample_rate={sample_rate})") for k, s_, m in problems]
     return problems
 
 
@@ -329,6 +351,12 @@ def run(ctx: Ctx) -> Result:
                             raise HarnessError(f"paired run crashed for {case}: {e!r}")
                         for k, sig, msg in probs:
                             res.violate(Violation(ID, k, sig, case, msg))
+                        if pos == "uses_random" and not faults:
+                            for rate in (2, 10):
+                                res.states += 1
+                                res.transitions += 4
+                                for k, sig, msg in paired(M, T, files, kind, pos, faults, rib, wp, rate):
+                                    res.violate(Violation(ID, k, sig, dict(case, sample_rate=rate), msg))
                         if faults or True:
                             res.nontrivial_n += 1
             # vacuity guards: the hooks of this kind do fire when the PROGRAM uses the object
@@ -350,5 +378,5 @@ def run(ctx: Ctx) -> Result:
 
 def replay(case: Dict[str, Any], ctx: Ctx) -> List[Violation]:
     M, T, files = load(ctx)
-    probs = paired(M, T, files, case["kind"], case["pos"], tuple(case["faults"]), case["raise"], case["profiler"])
+    probs = paired(M, T, files, case["kind"], case["pos"], tuple(case["faults"]), case["raise"], case["profiler"], case.get("sample_rate"))
     return [Violation(ID, k, sig, case, msg) for k, sig, msg in probs]
